@@ -21,6 +21,8 @@ def seeded_table():
             res = '**MISSED** ' + res
         if d.get('patch_used', 'patch.diff') != 'patch.diff':
             res += ' (rebased patch)'
+        if m.get('note'):
+            res += ' - ' + m['note']
         rows.append('| %s | %s | %s | %s |' % (
             sid, m['needs_to_manifest'].replace('|', '/'), res,
             ', '.join('`%s`' % c for c in d.get('violation_classes', [])[:2])))
